@@ -121,26 +121,23 @@ Proof.
 Qed.
 
 (* ---------------------------------------------------------------- Tag.format *)
+(* what follows the choice of the two colour strings: the priority letter, the f-string, the escaped arguments *)
+Ltac fmt_tail U :=
+  rewrite ?src_get_priority_eq; cbn [sbind1 sbind fst snd]; cbv zeta; unfold format_line;
+  match goal with |- context [nonempty ?e] => destruct e as [|e0 er] end; cbn [nonempty];
+  [|rewrite (smap_ret _ (escape U)) by (intros x; rewrite src_escape_eq; reflexivity); cbn [sbind1 sbind]; cbv zeta];
+  f_equal; norm_app; reflexivity.
+
 Lemma src_format_eq {C} U tig (tparm : list N -> C -> list N) dec colors s c name target extra color :
   src_format (repr_str U) repr_bytes_full tig strip_delay tparm dec colors (sev_rank s) (cer_rank c) name target extra color
   = sbind1 (if color then model_colors tig tparm dec colors (priority s c) else SRet ([], []))
            (fun p => SRet (format_line U (priority s c) target name (fst p) (snd p) extra)).
 Proof.
-  assert (L : forall on off,
-    sbind1 (src_get_priority (sev_rank s) (cer_rank c)) (fun t =>
-      let v := t ++ [58; 32] ++ target ++ [58; 32] ++ on ++ name ++ off in
-      if nonempty extra
-      then sbind1 (smap (fun x => src_escape (repr_str U) repr_bytes_full x) extra) (fun t' => SRet (v ++ [32] ++ join [32] t'))
-      else SRet v)
-    = SRet (format_line U (priority s c) target name on off extra)).
-  { intros on off. rewrite src_get_priority_eq. cbn [sbind1 sbind]; cbv zeta. unfold format_line.
-    destruct extra as [|e0 er]; cbn [nonempty];
-      [|rewrite (smap_ret _ (escape U)) by (intros x; apply src_escape_eq); cbn [sbind1 sbind]];
-      f_equal; norm_app; reflexivity. }
-  unfold src_format. destruct color.
-  - rewrite src_get_colors_eq. destruct (model_colors tig tparm dec colors (priority s c)) as [[on off]| | |]; cbn [sbind1 sbind fst snd]; try reflexivity.
-    exact (L on off).
-  - cbn [sbind1 sbind fst snd]; cbv zeta. exact (L [] []).
+  unfold src_format. destruct color; cbv zeta;
+    rewrite ?src_get_colors_eq, ?src_get_priority_eq; cbn [sbind1 sbind fst snd]; cbv zeta.
+  - destruct (model_colors tig tparm dec colors (priority s c)) as [[on off]| | |]; cbn [sbind1 sbind fst snd]; try reflexivity.
+    fmt_tail U.
+  - fmt_tail U.
 Qed.
 
 (* colour off: the line is exactly the model's uncoloured line *)
